@@ -680,7 +680,7 @@ def parse_equation(equation: str) -> List[Symbol]:
                 assert symbol == functions[name]
             # Otherwise, store
             else:
-                symbols[name] = symbol
+                symbols[name] = symbols.get(name, symbol).combine(symbol)
                 functions[name] = symbol
             continue
 
